@@ -16,7 +16,7 @@ import math, os, shutil, subprocess, sys
 from fractions import Fraction
 sys.path.insert(0, os.path.join(os.path.dirname(os.path.dirname(os.path.abspath(__file__))), "harness", "py"))
 from tools import vlib, translate_edit
-import femmio
+import femmio, meshgeom
 
 PRE = {"m": "mi_", "e": "ei_", "h": "hi_"}
 DOC = {"m": 0, "e": 1, "h": 2}
@@ -93,6 +93,56 @@ def invariants(D):
                     if min(math.hypot(X[0] - q[0], X[1] - q[1]) for q in (a_, b_, c_, d_)) < tol * 1.5:
                         continue
                 return ("crossing", "lines %d (%d-%d) and %d (%d-%d) cross without a point at the crossing" % (i, S[i][0], S[i][1], j, S[j][0], S[j][1]))
+    # ---- arcs cross arcs and lines only at points: every circle / circle and circle / line intersection that lies strictly inside both
+    # entities (more than three snap tolerances from their ends) has to be a point of the drawing where both are split, so no such
+    # intersection may exist between two entities
+    A_ = []
+    for a in D["arcs"]:
+        if a[0] == a[1] or not (0 <= a[0] < N and 0 <= a[1] < N) or not (0 < a[2] < 360):
+            continue
+        (cx, cy), R = meshgeom.arc_circle(P[a[0]], P[a[1]], a[2])
+        A_.append((cx, cy, R, math.atan2(P[a[0]][1] - cy, P[a[0]][0] - cx), math.radians(a[2]), a))
+
+    def inside_arc(q, arc):
+        cx, cy, R, a0, th, _ = arc
+        dd = (math.atan2(q[1] - cy, q[0] - cx) - a0) % (2 * math.pi)
+        m_ = 3 * tol / R
+        return m_ < dd < th - m_
+    for i in range(len(A_)):
+        for j in range(i + 1, len(A_)):
+            x0, y0, R0 = A_[i][:3]
+            x1, y1, R1 = A_[j][:3]
+            dc = math.hypot(x1 - x0, y1 - y0)
+            if dc < 1e-9 * max(R0, R1) or dc > R0 + R1 or dc < abs(R0 - R1):
+                continue
+            aa = (R0 * R0 - R1 * R1 + dc * dc) / (2 * dc)
+            hh2 = R0 * R0 - aa * aa
+            if hh2 <= (10 * tol) ** 2:
+                continue            # tangent or nearly so: not a crossing that can be decided
+            hh = math.sqrt(hh2)
+            ux, uy = (x1 - x0) / dc, (y1 - y0) / dc
+            for sg in (1, -1):
+                q = (x0 + aa * ux - sg * hh * uy, y0 + aa * uy + sg * hh * ux)
+                if inside_arc(q, A_[i]) and inside_arc(q, A_[j]):
+                    return ("arc-crossing", "arcs %r and %r cross at (%.9g, %.9g), inside both, without a point there" % (A_[i][5][:3], A_[j][5][:3], q[0], q[1]))
+    for arc in A_:
+        cx, cy, R = arc[:3]
+        for i, s in enumerate(S):
+            a, b = P[s[0]], P[s[1]]
+            L = math.hypot(b[0] - a[0], b[1] - a[1])
+            if L == 0:
+                continue
+            ux, uy = (b[0] - a[0]) / L, (b[1] - a[1]) / L
+            t0 = (cx - a[0]) * ux + (cy - a[1]) * uy
+            dperp2 = (cx - a[0] - t0 * ux) ** 2 + (cy - a[1] - t0 * uy) ** 2
+            if R * R - dperp2 <= (10 * tol) ** 2:
+                continue
+            hh = math.sqrt(R * R - dperp2)
+            for t_ in (t0 - hh, t0 + hh):
+                if 3 * tol < t_ < L - 3 * tol:
+                    q = (a[0] + t_ * ux, a[1] + t_ * uy)
+                    if inside_arc(q, arc):
+                        return ("arc-line-crossing", "line %d (%d-%d) and arc %r cross at (%.9g, %.9g), inside both, without a point there" % (i, s[0], s[1], arc[5][:3], q[0], q[1]))
     for i, s in enumerate(S):
         for k in range(N):
             if k in (s[0], s[1]):
@@ -134,7 +184,7 @@ def main(argv):
                       "select + delete of each kind and of everything (incl. a point together with its line), translate / rotate / scale moves, translate / "
                       "rotate copies (1-3 copies), mirror, create-radius; the drawing is saved and examined after every operation")
     ck.assumptions += ["the snap tolerance is the one the commands use: 1e-6 of the bounding-box diagonal of the points",
-                       "arcs are checked for end points, duplicates and dangling references; arc-arc and arc-line crossings are not examined"]
+                       "arcs are checked for end points, duplicates, dangling references and for crossings with arcs and lines that are no points of the drawing (tangencies within ten snap tolerances are not decided)"]
     try:
         text = translate_edit.generate(vlib.REPO)
         with vlib.LeanLock():
@@ -459,6 +509,55 @@ def main(argv):
                              "(%.12g, %.12g) -> (%.12g, %.12g) through (%.12g, %.12g)" % (op, ang, orig[0].real, orig[0].imag, orig[1].real, orig[1].imag,
                              [("(%.9g, %.9g) -> (%.9g, %.9g), %g" % (x[0].real, x[0].imag, x[1].real, x[1].imag, x[2])) for x in arcs],
                              want[0].real, want[0].imag, want[1].real, want[1].imag, tmid.real, tmid.imag), dict(script="\n".join(sc)))
+        # ================= a short arc drawn (or copied by rotation) across a long one, at several positions along the long arc and in both
+        # senses: the crossing has to become a point where both arcs are split (the arc / arc intersection routine tests two candidate
+        # points of the two circles against the spans of both arcs)
+        d = os.path.join(work, "arcx")
+        os.makedirs(d)
+        lines, cases = [], []
+        kx_ = 0
+        for phi in (26.0, 70.0, 126.0, 160.0):
+            for sense in (0, 1):
+                for via in ("addarc", "copyrotate"):
+                    kind = "meh"[kx_ % 3]
+                    pre = PRE[kind]
+                    Rb = rng.choice([1.0, 2.5])
+                    c_, s_ = math.cos(math.radians(phi)), math.sin(math.radians(phi))
+                    # end points on either side of the big circle, on a chord roughly across it
+                    pin = (0.8 * Rb * math.cos(math.radians(phi - 6)), 0.8 * Rb * math.sin(math.radians(phi - 6)))
+                    pout = (1.25 * Rb * math.cos(math.radians(phi + 5)), 1.25 * Rb * math.sin(math.radians(phi + 5)))
+                    a_, b_ = (pin, pout) if sense == 0 else (pout, pin)
+                    sc = ["newdocument(%d)" % DOC[kind], "%saddnode(%s,0)" % (pre, n17(Rb)), "%saddnode(%s,0)" % (pre, n17(-Rb)),
+                          "%saddarc(%s,0,%s,0,180,5)" % (pre, n17(Rb), n17(-Rb))]
+                    if via == "addarc":
+                        sc += ["%saddnode(%s,%s)" % (pre, n17(a_[0]), n17(a_[1])), "%saddnode(%s,%s)" % (pre, n17(b_[0]), n17(b_[1])),
+                               "%saddarc(%s,%s,%s,%s,40,5)" % (pre, n17(a_[0]), n17(a_[1]), n17(b_[0]), n17(b_[1]))]
+                    else:
+                        # the short arc is drawn below the axis (crossing nothing) and brought across the long one by a half turn about the origin
+                        ra, rb_ = (-a_[0], -a_[1]), (-b_[0], -b_[1])
+                        mid_ = ((ra[0] + rb_[0]) / 2, (ra[1] + rb_[1]) / 2)
+                        sc += ["%saddnode(%s,%s)" % (pre, n17(ra[0]), n17(ra[1])), "%saddnode(%s,%s)" % (pre, n17(rb_[0]), n17(rb_[1])),
+                               "%saddarc(%s,%s,%s,%s,40,5)" % (pre, n17(ra[0]), n17(ra[1]), n17(rb_[0]), n17(rb_[1])),
+                               "%sselectarcsegment(%s,%s)" % (pre, n17(mid_[0]), n17(mid_[1])), "%scopyrotate(0,0,180,1,3)" % pre]
+                    sc.append('%ssaveas("x%03d%s")' % (pre, kx_, femmio.EXT[kind]))
+                    lines += sc
+                    cases.append((kind, phi, sense, via, sc))
+                    kx_ += 1
+        open(os.path.join(d, "s.lua"), "w").write("\n".join(lines) + "\n")
+        subprocess.run([os.path.join(build, "cfemm", "bin", "femmcli"), "--lua-script=s.lua"], cwd=d, stdout=subprocess.PIPE, stderr=subprocess.STDOUT,
+                       text=True, timeout=600, errors="replace")
+        for t, (kind, phi, sense, via, sc) in enumerate(cases):
+            f = os.path.join(d, "x%03d%s" % (t, femmio.EXT[kind]))
+            ck.case(("arc-crossing", phi, sense, via), nontrivial=True)
+            stats["arc_crossings_checked"] = stats.get("arc_crossings_checked", 0) + 1
+            if not os.path.exists(f):
+                ck.violation("edit-crash:arc-crossing", "femmcli did not save the drawing after an arc was put across another (%s)" % via, dict(script="\n".join(sc)))
+                continue
+            Dx = load(f)
+            bad = invariants(Dx)
+            if bad:
+                ck.violation("pslg:%s:%s" % (bad[0], via), "a 40 degree arc put across a half circle %g degrees along it (%s, sense %d, %s document): %s"
+                             % (phi, via, sense, femmio.EXT[kind], bad[1]), dict(script="\n".join(sc), drawing=dict(nodes=Dx["nodes"], arcs=Dx["arcs"])))
         # ================= the arc made by create-radius inherits boundary condition and group of the lines it rounds (as the command says)
         d = os.path.join(work, "radius")
         os.makedirs(d)
